@@ -378,35 +378,59 @@ def run(prog: Program, ctx: Ctx) -> None:  # noqa: PLR0912,PLR0915
         dumps = [c for c in calls_in(f.node) if dotted(c.func) == "json.dumps"]
         ok = len(dumps) == 1 and unparse(kwarg(dumps[0], "cls")) == "JSONEncoder" and unparse(kwarg(dumps[0], "full")) == "full"
         ctx.ob("R5", key(f, "as_json"), ok, "as_json = json.dumps(self, cls=JSONEncoder, full=full, ...)", where(f))
-    dump = prog.function("_griffe.cli.dump")
-    sers = [c for c in calls_in(dump.node) if (isinstance(c.func, ast.Attribute) and c.func.attr == "as_json") or dotted(c.func) == "json.dumps"]
-    ctx.expect_min("R5", len(sers), 2)
-    for c in sers:
-        fv, unresolved = kwarg_deep(dump, c, "full")
-        if fv is None and unresolved:
-            ctx.note("R5: a serialisation call in cli.dump passes options through an unresolved ** mapping; not judged")
-            continue
-        ctx.ob("R5", key(dump, f"full:{norm(c.func)}"), fv is not None and unparse(fv) == "full",
-               f"`{norm(c.func)}` in the CLI dump receives full=full" if fv is not None and unparse(fv) == "full" else
-               f"`{norm(c, 80)}` in the CLI dump does not pass full=full: that output form silently falls back to the minimal serialisation", where(dump, c))
-        if dotted(c.func) == "json.dumps":
-            cv, _ = kwarg_deep(dump, c, "cls")
-            ctx.ob("R5", key(dump, "cls:json.dumps"), cv is not None and unparse(cv) == "JSONEncoder", "the combined dump uses JSONEncoder", where(dump, c))
-        sk, _ = kwarg_deep(dump, c, "sort_keys")
-        ctx.ob("R5", key(dump, f"sort_keys:{norm(c.func)}"), sk is not None and isinstance(sk, ast.Constant) and sk.value is True, "keys are sorted (deterministic output)", where(dump, c))
-    # the positional arguments of `griffe dump` are names *or paths* (the loader is called with try_relative_path=True): inside dump() they may only
-    # be handed to the loading helper or counted - used as module names (compared, iterated into keys, indexed) a package given by path is lost
-    pparam = dump.params[0]
-    from sa.srcmodel import parent as _parent
+    # the CLI dump, on behaviour: evaluated with the loading helper, the extension loader, json.dumps, as_json, the clock and the output helper
+    # replaced by recording stand-ins.  Rows: output to stdout / one file / one file per package x full or minimal x packages named or given by path.
+    import itertools as _it8
 
-    for n_ in walk_no_nested(dump.node):
-        if isinstance(n_, ast.Name) and n_.id == pparam and isinstance(n_.ctx, ast.Load):
-            par = _parent(n_)
-            fine = isinstance(par, ast.Call) and ((n_ in par.args or any(kw.value is n_ for kw in par.keywords)) and
-                                                  ((dotted(par.func) or "").split(".")[-1] in ("_load_packages", "load", "len")))
-            ctx.ob("R5", key(dump, f"package-args:{norm(par, 50)}"), fine,
-                   "the package arguments are only passed to the loader or counted" if fine else
-                   f"`{norm(par, 70)}` uses the raw command-line arguments as module names: `griffe dump src/pkg` loads `pkg`, which no longer matches", where(dump, n_))
+    dump = prog.function("_griffe.cli.dump")
+    mcls8 = prog.cls(f"{M}.Module")
+    n_dump = 0
+    for output, full_, by_path in _it8.product((None, "out.json", "docs/{package}.json"), (False, True), (False, True)):
+        it5 = Interp(prog, max_depth=30, max_steps=400_000)
+        log5: list[tuple[str, tuple, dict]] = []
+
+        def rec5(name, ret, log5=log5):
+            def f(_i, *a_, **k_):
+                log5.append((name, a_, k_))
+                return ret(a_, k_) if callable(ret) else ret
+            return f
+
+        pk_a, pk_b = (Obj(mcls8, {"name": n_, "__closed__": True}, label=n_) for n_ in ("pkg_a", "pkg_b"))
+        members5 = {"pkg_a": pk_a, "pkg_b": pk_b}
+        loader5 = Obj(None, {"modules_collection": Obj(None, {"members": members5, "__closed__": True}), "__closed__": True}, label="loader")
+        it5.stubs["_griffe.cli._load_packages"] = rec5("_load_packages", loader5)
+        it5.stubs["_griffe.extensions.base.load_extensions"] = rec5("load_extensions", Obj(None, {"__closed__": True}, label="extensions"))
+        it5.stubs["_griffe.cli._print_data"] = rec5("_print_data", None)
+        it5.stubs["_griffe.mixins.SerializationMixin.as_json"] = rec5("as_json", lambda a_, _k: f"json of {a_[0].label}")
+        it5.ext_handlers["json.dumps"] = rec5("json.dumps", "json of everything")
+        it5.ext_handlers["datetime.datetime.now"] = rec5("now", 0)
+        it5.ext_handlers["datetime.now"] = rec5("now", 0)
+        args5 = ["src/pkg_a", "src/pkg_b"] if by_path else ["pkg_a", "pkg_b"]
+        try:
+            rc5: object = it5.call(dump, list(args5), output=output, full=full_)
+        except Raised as r:
+            rc5 = f"raises {r.exc}"
+        n_dump += 1
+        row5 = f"dump|output={output}|full={full_}|packages {'by path' if by_path else 'by name'}"
+        prints = [(c_[1][0], c_[1][1] if len(c_[1]) > 1 else c_[2].get("output_file")) for c_ in log5 if c_[0] == "_print_data"]
+        sers5 = [c_ for c_ in log5 if c_[0] in ("as_json", "json.dumps")]
+        loads5 = [c_ for c_ in log5 if c_[0] == "_load_packages"]
+        if output is not None and "{package}" in output:
+            want_prints = [(f"json of {n_}", f"docs/{n_}.json") for n_ in members5]
+            want_sers = [("as_json", members5[n_]) for n_ in members5]
+        else:
+            want_prints = [("json of everything", output)]
+            want_sers = [("json.dumps", members5)]
+        got_sers = [(c_[0], c_[1][0]) for c_ in sers5]
+        opts_ok = all(c_[2].get("full") is full_ and c_[2].get("sort_keys") is True for c_ in sers5) and all(
+            isinstance(c_[2].get("cls"), object) and "JSONEncoder" in repr(c_[2].get("cls")) for c_ in sers5 if c_[0] == "json.dumps")
+        ctx.ob("R5", row5 + "|serialised", got_sers == want_sers and opts_ok,
+               f"expected {[w_[0] for w_ in want_sers]} with full={full_}, sort_keys=True (and JSONEncoder for json.dumps); got "
+               f"{[(c_[0], {k_: (v_ if isinstance(v_, (bool, int, type(None))) else repr(v_)[:30]) for k_, v_ in c_[2].items()}) for c_ in sers5]}", where(dump))
+        ctx.ob("R5", row5 + "|written", prints == want_prints, f"expected the output calls {want_prints}; got {prints}", where(dump))
+        ctx.ob("R5", row5 + "|exit-code", rc5 == 0 and len(loads5) == 1 and list(loads5[0][1][0]) == args5,
+               f"two packages requested ({args5}), two loaded: exit code {rc5} (0 expected), the loading helper received {[list(c_[1][0]) for c_ in loads5]}", where(dump))
+    ctx.expect_min("R5", n_dump, 12)
     awk = writer_keys(prog, prog.cls(f"{M}.Alias"))
     tp = awk.get("target_path")
     ok = tp is not None and len(tp.values) == 1 and unparse(tp.values[0]) == "self.target_path"
